@@ -10,6 +10,7 @@ HERE = os.path.dirname(os.path.dirname(os.path.abspath(__file__)))
 FLAVOURS = {
  "plain": "Plain, realistic faults: the kind of slip a maintainer makes in a routine PR (an off-by-one in a bound, the wrong field or operand, a forgotten branch, a mis-ordered pair of statements, a wrong constant, a condition that is too weak or too strong).",
  "twosite": "Faults made of TWO cooperating edits in different functions (or different branches) that each look harmless and locally correct alone - e.g. a helper whose contract is subtly changed together with a caller that relied on the old contract, an invariant relaxed at one site and exploited at another, a field whose meaning shifts by a constant at its writer but not at one of its readers. Removing either edit alone should restore correct behaviour or at least make the change look different.",
+ "boundary": "Faults that manifest ONLY at a boundary or extreme argument / state and are correct everywhere else: 0, 1, len-1, len, capacity, capacity+1, usize::MAX, isize::MAX+k, empty buffers or slices, exactly-full buffers, zero-length chunks in the middle of a sequence, a cursor position past the end, an offset that is exactly equal to a length, nbytes == 0 or 8, the last representable value of a bit field. Typical shapes: `<` vs `<=`, a guard that forgets the equal case, a fast path for the empty / full case that skips a step the general path performs, saturating vs wrapping vs checked arithmetic at the extreme.",
  "disguised": "Faults disguised as cleanups: a helper extracted and shared, control flow reshaped, a std API swapped in, a de-duplication - with the behaviour change hidden inside what reads like a refactoring.",
 }
 def main():
